@@ -760,3 +760,21 @@ Proof.
   split; [exists (13, -17, 10); vm_compute; repeat split; reflexivity|].
   repeat split; vm_compute; reflexivity.
 Qed.
+
+(* ------------------------------------------------------------------ the standard-orientation hypothesis is needed *)
+(* [lower_tri_pos] cannot be dropped from tric_minimal_halfwidth: for a cubic cell of edge 3000 rotated about z
+   by the (3,4,5) angle -- positive diagonal, positive volume, every image search range intact -- the triclinic
+   code returns an image of squared length 5024825 although another image has squared length 1853225, which
+   is below half of every cell width (1500^2).  (The result is still an image: tric_congruent needs no
+   orientation hypothesis.)  Only mdtraj.geometry.distance.compute_distances_core can be handed such a cell:
+   Trajectory.unitcell_vectors is always regenerated in standard orientation from lengths and angles. *)
+Lemma nonstandard_orientation_counterexample :
+  exists B r n, diag_posb B = true /\ lower_trib B = false /\ 0 < vol B /\
+    below_half_widths B (vadd r (comb B n)) /\
+    norm2 (vadd r (comb B n)) < norm2 (path_disp PTricCpp B r) /\
+    path_disp PTricCpp B r = vadd r (comb B (path_coef PTricCpp B r)).
+Proof.
+  exists (mkbox (1800, 2400, 0) (-2400, 1800, 0) (0, 0, 3000)), (5892, -5525, 2644).
+  exists (0, 3, -1).
+  repeat split; vm_compute; (reflexivity || discriminate).
+Qed.
